@@ -43,6 +43,7 @@ pub fn replay(mk: &MkFn, hist: &[Ev]) -> Sess {
 fn ev_label(e: &Ev) -> String {
     match e {
         Ev::Line(l) => format!("line:{}", truncate(l, 40)),
+        Ev::LineToIdle(l) => format!("line*:{}", truncate(l, 40)),
         Ev::Cont => "continue".into(),
         Ev::Break => "break".into(),
         Ev::Input(s) => format!("input:{}", truncate(s, 20)),
@@ -134,7 +135,6 @@ pub fn bfs(
                         before,
                         result: &result,
                     };
-                    let viol = check(&t, &mut s);
                     let class = match &result {
                         CallResult::Ok => format!("ok->{:?}", s.state()),
                         CallResult::Err(k, _) => {
@@ -147,6 +147,7 @@ pub fn bfs(
                     h.push(ev.clone());
                     // After a panic the interpreter is in an unspecified state; do not expand.
                     if matches!(result, CallResult::Panic(_)) {
+                        let viol = check(&t, &mut s);
                         outs.push(Out {
                             hist: h,
                             snap: (**before).clone(),
@@ -158,11 +159,13 @@ pub fn bfs(
                         continue;
                     }
                     s.drain();
+                    // Snapshot first: the oracle may go on using (and disturbing) the session.
                     let snap = guarded(|| s.it.verif_snapshot());
                     let snap = match snap {
                         Ok(s) => s,
                         Err(_) => (**before).clone(),
                     };
+                    let viol = check(&t, &mut s);
                     outs.push(Out {
                         hist: h,
                         snap,
